@@ -15,6 +15,8 @@ mod metrics;
 mod ordered_commit;
 #[cfg(test)]
 mod tests;
+#[cfg(grevm_verif)]
+pub(crate) mod verif_probe;
 mod wait;
 
 use crate::{
@@ -30,6 +32,9 @@ use context::SchedulerContext;
 use executor::{GrevmExecutor, IncarnationExecution, ParallelTransactionExecutor};
 use metrics::ExecuteMetricsCollector;
 use ordered_commit::{CommitOutcome, CommittedPrefixEnd, OrderedCommitOutput, OrderedCommitter};
+#[cfg(grevm_verif)]
+use crate::verif::sync::{Mutex, MutexGuard};
+#[cfg(not(grevm_verif))]
 use parking_lot::{Mutex, MutexGuard};
 use revm::DatabaseRef;
 use revm_context::{BlockEnv, CfgEnv, TxEnv, result::EVMError};
@@ -237,7 +242,12 @@ where
         let mut finality_idx = 0;
         let mut lower_ts = 0;
         let dependency_distance = self.metrics.dependency_distance_histogram();
-        while !self.is_aborted() && finality_idx < self.block_size {
+        while {
+            vpoint!(SCHED, "F_Loop");
+            vemit!(SCHED, "F_Loop", "abort" => self.abort.load(std::sync::atomic::Ordering::Acquire),
+                "fin" => finality_idx);
+            !self.is_aborted() && finality_idx < self.block_size
+        } {
             let previous_finality_idx = finality_idx;
             while let Some((mut tx_state, effective_lower_ts)) =
                 self.lock_finality_candidate(finality_idx, lower_ts)
@@ -246,10 +256,14 @@ where
                 let incarnation = tx_state.incarnation;
                 let dependency = tx_state.dependency;
                 tx_state.status = TransactionStatus::Finality;
+                vemit!(SCHED, "F_Final", "tx" => finality_idx, "inc" => incarnation,
+                    "lower" => lower_ts);
                 drop(tx_state);
 
                 let next_finality_idx = finality_idx + 1;
+                vpoint!(SCHED, "F_Publish");
                 self.scheduler_ctx.publish_finality(next_finality_idx);
+                vemit!(SCHED, "F_Publish", "fin" => next_finality_idx);
                 if finality_idx == previous_finality_idx {
                     // Start commit as soon as the first transaction in this batch is visible.
                     self.commit_wait.notify();
@@ -272,6 +286,9 @@ where
                 thread::yield_now();
             } else {
                 self.finality_wait.wait_while(STALL_TIMEOUT, || {
+                    vpoint!(SCHED, "F_Pred");
+                    vemit!(SCHED, "F_Pred",
+                        "abort" => self.abort.load(std::sync::atomic::Ordering::Acquire));
                     !self.is_aborted() &&
                         self.lock_finality_candidate(finality_idx, lower_ts).is_none()
                 });
@@ -296,16 +313,28 @@ where
         finality_idx: usize,
         lower_ts: usize,
     ) -> Option<(MutexGuard<'_, TxState>, usize)> {
-        if finality_idx >= self.block_size || finality_idx >= self.scheduler_ctx.validation_idx() {
+        if finality_idx >= self.block_size {
+            return None;
+        }
+        vpoint!(SCHED, "F_ValLoad");
+        vemit!(SCHED, "F_ValLoad", "fin" => finality_idx,
+            "val" => self.scheduler_ctx.verif_validation_idx());
+        if finality_idx >= self.scheduler_ctx.validation_idx() {
             return None;
         }
         // Read the validation frontier first, then decide status and timestamp eligibility under
         // the transaction lock. Together with contiguous finality, this prevents a candidate from
         // passing a rewind that invalidates it or an earlier transaction.
         let tx_state = self.tx_states[finality_idx].lock();
+        vemit!(SCHED, "F_Lock", "tx" => finality_idx,
+            "status" => format!("{:?}", tx_state.status), "inc" => tx_state.incarnation);
         if tx_state.status != TransactionStatus::Unconfirmed {
             return None;
         }
+        vpoint!(SCHED, "F_Decide");
+        vemit!(SCHED, "F_Decide", "tx" => finality_idx, "carried" => lower_ts,
+            "lower" => self.scheduler_ctx.verif_lower(finality_idx),
+            "unconf" => self.scheduler_ctx.verif_unconf(finality_idx));
 
         // Carry the largest rewind timestamp through the contiguous prefix: every later candidate
         // must have been validated after that rewind as well.
@@ -323,9 +352,21 @@ where
         self.commit_wait.register_current_thread();
         let mut output = OrderedCommitOutput::with_capacity(self.block_size);
         let mut commit_idx = 0;
-        while !self.is_aborted() && commit_idx < self.block_size {
+        while {
+            vpoint!(SCHED, "C_Loop");
+            vemit!(SCHED, "C_Loop", "abort" => self.abort.load(std::sync::atomic::Ordering::Acquire),
+                "com" => commit_idx);
+            !self.is_aborted() && commit_idx < self.block_size
+        } {
             let previous_commit_idx = commit_idx;
-            while commit_idx < self.scheduler_ctx.finality_idx() {
+            while {
+                vpoint!(SCHED, "C_FinLoad");
+                vemit!(SCHED, "C_FinLoad", "com" => commit_idx,
+                    "fin" => self.scheduler_ctx.finality_idx());
+                commit_idx < self.scheduler_ctx.finality_idx()
+            } {
+                vpoint!(SCHED, "C_Take");
+                vemit!(SCHED, "C_Take", "tx" => commit_idx);
                 let Some(tx_result) = self.tx_results[commit_idx].lock().take() else {
                     self.abort(AbortReason::ParallelError {
                         txid: commit_idx,
@@ -350,9 +391,13 @@ where
                 match outcome {
                     Ok(CommitOutcome::Committed(committed)) => {
                         let next_commit_idx = committed.index();
+                        vpoint!(SCHED, "C_Publish");
                         self.scheduler_ctx.publish_commit(next_commit_idx);
+                        vemit!(SCHED, "C_Publish", "com" => next_commit_idx);
                         // Publish committed state before releasing work that may require it.
+                        vpoint!(SCHED, "D_Commit");
                         self.tx_dependency.commit(commit_idx);
+                        vemit!(SCHED, "D_Commit", "tx" => commit_idx);
                         commit_idx = next_commit_idx;
                     }
                     Ok(CommitOutcome::NeedsSequentialFallback) => {
@@ -373,6 +418,10 @@ where
                 thread::yield_now();
             } else {
                 self.commit_wait.wait_while(STALL_TIMEOUT, || {
+                    vpoint!(SCHED, "C_Pred");
+                    vemit!(SCHED, "C_Pred",
+                        "abort" => self.abort.load(std::sync::atomic::Ordering::Acquire),
+                        "com" => commit_idx, "fin" => self.scheduler_ctx.finality_idx());
                     !self.is_aborted() && commit_idx >= self.scheduler_ctx.finality_idx()
                 });
             }
@@ -393,6 +442,7 @@ where
             self.scheduler_ctx.committed_idx(),
             "ordered output and published commit cursor must describe the same prefix",
         );
+        vemit!(SCHED, "M_Install", "committed" => committed.index(), "error" => error.is_some());
         let mut results = self.results.lock();
         assert!(results.is_empty(), "ordered commit outcomes may only be installed once");
         *results = output.into_outcomes();
@@ -409,6 +459,9 @@ where
         concurrency_level: usize,
         start_time: Instant,
     ) -> Result<(), GrevmError<DB::Error>> {
+        vemit!(SCHED, "M_Path",
+            "sequential" => self.config.force_sequential || self.block_size < self.config.min_parallel_txs,
+            "workers" => concurrency_level, "n" => self.block_size);
         if self.config.force_sequential || self.block_size < self.config.min_parallel_txs {
             return self.replay_uncommitted_suffix(CommittedPrefixEnd::ZERO);
         }
@@ -422,6 +475,8 @@ where
             let beneficiary_anchor = state_view
                 .basic_ref(self.env.beneficiary)
                 .map_err(|e| GrevmError { txid: 0, error: EVMError::Database(e) })?;
+            vemit!(SCHED, "M_Preload",
+                "anchor" => crate::verif::fmt::info(beneficiary_anchor.as_ref()));
             let beneficiary =
                 Beneficiary::new(self.env.beneficiary, beneficiary_anchor, self.block_size);
             let mut committer = OrderedCommitter::new(
@@ -429,22 +484,40 @@ where
                 commit_state,
                 self.cfg.disable_nonce_check,
             );
+            #[cfg(grevm_verif)]
+            let verif_roles = crate::verif::Roles::default();
             thread::scope(|scope| {
                 // If spawning or joining itself panics, cancel children before `scope` waits for
                 // them. Each child has the same guard for panics in its scheduler role.
                 let _scope_cancel = self.cancel_on_panic();
+                #[cfg(grevm_verif)]
+                verif_roles.before_spawn();
                 let finality_thread = scope.spawn(|| {
+                    #[cfg(grevm_verif)]
+                    let _verif = verif_roles.enter("fin");
                     let _cancel = self.cancel_on_panic();
                     self.run_finality_loop();
                     self.metrics.record_execution_time(start_time.elapsed());
                 });
+                #[cfg(grevm_verif)]
+                verif_roles.after_spawn();
+                #[cfg(grevm_verif)]
+                verif_roles.before_spawn();
                 let commit_thread = scope.spawn(|| {
+                    #[cfg(grevm_verif)]
+                    let _verif = verif_roles.enter("com");
                     let _cancel = self.cancel_on_panic();
                     self.run_commit_loop(&mut committer)
                 });
+                #[cfg(grevm_verif)]
+                verif_roles.after_spawn();
                 let mut workers = Vec::with_capacity(concurrency_level);
                 for _ in 0..concurrency_level {
+                    #[cfg(grevm_verif)]
+                    verif_roles.before_spawn();
                     workers.push(scope.spawn(|| {
+                        #[cfg(grevm_verif)]
+                        let _verif = verif_roles.enter("w");
                         let _cancel = self.cancel_on_panic();
                         let incarnation_db =
                             IncarnationDb::new(&state_view, &self.mv_memory, &beneficiary);
@@ -464,11 +537,15 @@ where
                         );
                         self.run_worker(&mut executor, &beneficiary);
                     }));
+                    #[cfg(grevm_verif)]
+                    verif_roles.after_spawn();
                 }
 
                 // Join every role explicitly. `thread::scope` otherwise replaces an automatically
                 // joined child's payload with a generic "scoped thread panicked" panic.
                 let mut thread_panic = None;
+                #[cfg(grevm_verif)]
+                crate::verif::blocking_begin();
                 let commit_result = match commit_thread.join() {
                     Ok(result) => Some(result),
                     Err(panic) => {
@@ -488,6 +565,8 @@ where
                         thread_panic = Some(panic);
                     }
                 }
+                #[cfg(grevm_verif)]
+                crate::verif::blocking_end();
                 if let Some(panic) = thread_panic {
                     resume_unwind(panic);
                 }
@@ -534,6 +613,8 @@ where
     {
         let TxVersion { txid, incarnation } = tx_version.clone();
         let mut tx_state = self.tx_states[txid].lock();
+        vemit!(SCHED, "E_Begin", "tx" => txid, "inc" => incarnation,
+            "status" => format!("{:?}", tx_state.status), "cur_inc" => tx_state.incarnation);
         // Cursor claims are advisory and may become stale after a rewind. The locked status and
         // incarnation are the authority for whether this task may execute.
         if tx_state.status != TransactionStatus::Executing {
@@ -551,6 +632,20 @@ where
         let tx_env = self.txs[txid].clone();
         let IncarnationExecution { result, accesses } =
             executor.execute_incarnation(tx_version.clone(), tx_env);
+        vpoint!(SCHED, "E_Done");
+        vemit!(SCHED, "E_Done", "tx" => txid, "inc" => incarnation,
+            "ok" => result.is_ok(),
+            "error" => result.as_ref().err().map(|e| match e {
+                EVMError::Transaction(_) => "invalid",
+                EVMError::Database(_) => "database",
+                _ => "fatal",
+            }),
+            "blocked" => accesses.is_blocked(),
+            "blockers" => { let mut b: Vec<usize> = accesses.blocking_txs.iter().copied().collect(); b.sort_unstable(); b },
+            "ben_blocked" => accesses.blocked_by_beneficiary,
+            "reward" => result.as_ref().ok().and_then(|r| r.deferred_reward()).map(|r| r.verif_amount()),
+            "reads" => { let mut r: Vec<String> = accesses.read_set.iter().map(|(l, v)| format!("{}={}", crate::verif::fmt::loc(l), crate::verif::fmt::version(v))).collect(); r.sort(); r },
+            "writes" => { let mut w: Vec<String> = accesses.write_set.iter().map(crate::verif::fmt::loc).collect(); w.sort(); w });
 
         // If this incarnation expands its write set, already validated suffix transactions may
         // have missed a new predecessor and validation must rewind to this transaction. Existing
@@ -577,6 +672,10 @@ where
                         }
                     }
                     for location in &last_result.write_set {
+                        if !write_set.contains(location) {
+                            vpoint!(SCHED, "P_Unpub");
+                            vemit!(SCHED, "P_Unpub", "tx" => txid, "loc" => crate::verif::fmt::loc(location));
+                        }
                         if !write_set.contains(location) &&
                             let Some(mut written_transactions) = self.mv_memory.get_mut(location)
                         {
@@ -586,12 +685,16 @@ where
                 } else {
                     write_new_locations = true;
                 }
+                vemit!(SCHED, "E_Res", "tx" => txid, "newloc" => write_new_locations);
 
+                vpoint!(SCHED, "H_Rec");
                 let history_published = if conflict {
                     beneficiary.record_estimate(&tx_version)
                 } else {
                     beneficiary.record_execution(&tx_version, &speculative_result)
                 };
+                vemit!(SCHED, "H_Rec", "tx" => txid, "inc" => incarnation, "estimate" => conflict,
+                    "ok" => history_published);
                 if !history_published {
                     self.abort(AbortReason::ParallelError {
                         txid,
@@ -606,11 +709,18 @@ where
                     } else {
                         self.metrics.record_estimate_conflict();
                     }
+                    vpoint!(SCHED, "D_Add");
+                    #[cfg(grevm_verif)]
+                    let blocker = self.latest_unfinalized_blocker(&blocking_txs);
+                    vemit!(SCHED, "D_Add", "tx" => txid, "dep" => blocker,
+                        "fin" => self.scheduler_ctx.finality_idx());
                     self.tx_dependency.add(txid, self.latest_unfinalized_blocker(&blocking_txs));
                 } else {
                     // Clearing reverse edges may hand the immediate successor directly to this
                     // worker, avoiding a cursor round trip on a linear dependency chain.
+                    vpoint!(SCHED, "D_Remove");
                     next = self.tx_dependency.remove(txid, true);
+                    vemit!(SCHED, "D_Remove", "tx" => txid, "pop" => true, "next" => next);
                 }
                 *last_result = Some(TransactionResult {
                     read_set,
@@ -631,7 +741,11 @@ where
                     write_set = std::mem::take(&mut last_result.write_set);
                     self.mark_mv_estimate(txid, &write_set);
                 }
-                if !beneficiary.record_estimate(&tx_version) {
+                vpoint!(SCHED, "H_Rec");
+                let history_published = beneficiary.record_estimate(&tx_version);
+                vemit!(SCHED, "H_Rec", "tx" => txid, "inc" => incarnation, "estimate" => true,
+                    "ok" => history_published);
+                if !history_published {
                     self.abort(AbortReason::ParallelError {
                         txid,
                         message: "stale beneficiary estimate publication",
@@ -650,9 +764,17 @@ where
                     } else {
                         self.metrics.record_estimate_conflict();
                     }
+                    vpoint!(SCHED, "D_Add");
+                    #[cfg(grevm_verif)]
+                    let blocker = self.latest_unfinalized_blocker(&blocking_txs);
+                    vemit!(SCHED, "D_Add", "tx" => txid, "dep" => blocker,
+                        "fin" => self.scheduler_ctx.finality_idx());
                     self.tx_dependency.add(txid, self.latest_unfinalized_blocker(&blocking_txs));
                 } else {
                     self.metrics.record_evm_error_conflict();
+                    vpoint!(SCHED, "E_HeadCheck");
+                    vemit!(SCHED, "E_HeadCheck", "tx" => txid,
+                        "com" => self.scheduler_ctx.committed_idx(), "invalid" => invalid_transaction);
                     if self.scheduler_ctx.committed_idx() == txid {
                         if invalid_transaction {
                             self.abort(AbortReason::FallbackSequential);
@@ -660,6 +782,8 @@ where
                             self.abort(AbortReason::FatalEvmError(txid));
                         }
                     }
+                    vpoint!(SCHED, "D_KeyTx");
+                    vemit!(SCHED, "D_KeyTx", "tx" => txid, "com" => self.scheduler_ctx.committed_idx());
                     self.tx_dependency.key_tx(txid, self.scheduler_ctx.commit_cursor());
                 }
             }
@@ -667,10 +791,14 @@ where
 
         tx_state.status =
             if conflict { TransactionStatus::Conflict } else { TransactionStatus::Executed };
+        vpoint!(SCHED, "X_Publish");
         self.scheduler_ctx.executed(txid);
+        vemit!(SCHED, "X_Publish", "tx" => txid, "conflict" => conflict);
 
         if let Some(next) = next {
             self.scheduler_ctx.rewind_validation_to(txid);
+            vpoint!(SCHED, "E_End");
+            vemit!(SCHED, "E_End", "tx" => txid, "then" => "handoff", "next" => Some(next));
             drop(tx_state);
             return self.execution_task(next);
         }
@@ -681,9 +809,13 @@ where
                 self.scheduler_ctx.rewind_validation_to(txid);
             } else {
                 tx_state.status = TransactionStatus::Validating;
+                vpoint!(SCHED, "E_End");
+                vemit!(SCHED, "E_End", "tx" => txid, "then" => "validate", "next" => Option::<usize>::None);
                 return Some(Task::Validation(TxVersion::new(txid, incarnation)));
             }
         }
+        vpoint!(SCHED, "E_End");
+        vemit!(SCHED, "E_End", "tx" => txid, "then" => "loop", "next" => Option::<usize>::None);
         None
     }
 
@@ -692,6 +824,8 @@ where
         let incarnation = tx_version.incarnation;
         let mut tx_state = self.tx_states[txid].lock();
         let tx_result = self.tx_results[txid].lock();
+        vemit!(SCHED, "V_Begin", "tx" => txid, "inc" => incarnation,
+            "status" => format!("{:?}", tx_state.status), "cur_inc" => tx_state.incarnation);
         if tx_state.status != TransactionStatus::Validating {
             return None;
         }
@@ -720,13 +854,18 @@ where
 
         // Capture the timestamp before scanning. A concurrent later rewind then has a newer lower
         // bound and prevents this validation from reaching finality.
+        vpoint!(SCHED, "V_Ts");
         let ts = self.scheduler_ctx.logical_timestamp();
+        vemit!(SCHED, "V_Ts", "tx" => txid, "ts" => ts);
         // Every read must still resolve to the same latest preceding incarnation, and that write
         // must not be an estimate. A storage-origin read remains valid only when no preceding
         // multi-version write exists.
         let mut conflict = false;
         let mut dependency: Option<TxId> = None;
         for (location, version) in result.read_set.iter() {
+            vpoint!(SCHED, "V_Scan");
+            #[cfg(grevm_verif)]
+            let conflict_before = conflict;
             if let ReadVersion::Beneficiary(expected) = version {
                 let validation = beneficiary.validate(txid, expected);
                 if !validation.is_valid() {
@@ -735,6 +874,10 @@ where
                 if let Some(previous_id) = validation.dependency() {
                     dependency = Some(dependency.map_or(previous_id, |d| max(d, previous_id)));
                 }
+                vemit!(SCHED, "V_Scan", "tx" => txid, "loc" => crate::verif::fmt::loc(location),
+                    "had" => crate::verif::fmt::version(version),
+                    "seen" => Option::<String>::None, "est" => false,
+                    "bad" => !validation.is_valid(), "dep" => validation.dependency());
                 continue;
             }
 
@@ -760,12 +903,26 @@ where
             } else if !matches!(version, ReadVersion::Storage) {
                 conflict = true;
             }
+            #[cfg(grevm_verif)]
+            {
+                let seen = self.mv_memory.get(location).and_then(|w| {
+                    w.range(..txid).next_back().map(|(t, e)| (*t, e.incarnation, e.estimate))
+                });
+                vemit!(SCHED, "V_Scan", "tx" => txid, "loc" => crate::verif::fmt::loc(location),
+                    "had" => crate::verif::fmt::version(version),
+                    "seen" => seen.map(|(t, i, _)| format!("{t}.{i}")),
+                    "est" => seen.is_some_and(|(_, _, e)| e),
+                    "bad" => conflict && !conflict_before, "dep" => seen.map(|(t, _, _)| t));
+            }
         }
         if conflict {
             self.metrics.record_version_conflict();
             // Readers must not validate against writes produced by an invalid incarnation.
             self.mark_mv_estimate(txid, &result.write_set);
-            if !beneficiary.invalidate(&tx_version) {
+            vpoint!(SCHED, "H_Inv");
+            let invalidated = beneficiary.invalidate(&tx_version);
+            vemit!(SCHED, "H_Inv", "tx" => txid, "inc" => incarnation, "ok" => invalidated);
+            if !invalidated {
                 self.abort(AbortReason::ParallelError {
                     txid,
                     message: "stale beneficiary history validation",
@@ -779,18 +936,27 @@ where
             self.scheduler_ctx.rewind_validation_to(txid + 1);
             TransactionStatus::Conflict
         } else {
+            vpoint!(SCHED, "T_Unconf");
             self.scheduler_ctx.unconfirmed(txid, ts);
+            vemit!(SCHED, "T_Unconf", "tx" => txid, "ts" => ts);
             TransactionStatus::Unconfirmed
         };
         tx_state.dependency = dependency;
 
         if conflict {
             // update dependency
+            vpoint!(SCHED, "D_Add");
             let dep_tx = dependency.filter(|&dep| dep >= self.scheduler_ctx.finality_idx());
+            vemit!(SCHED, "D_Add", "tx" => txid, "dep" => dep_tx,
+                "fin" => self.scheduler_ctx.finality_idx());
             self.tx_dependency.add(txid, dep_tx);
         }
+        vpoint!(SCHED, "V_End");
+        vemit!(SCHED, "V_End", "tx" => txid, "conflict" => conflict);
         drop(tx_result);
         drop(tx_state);
+        vpoint!(SCHED, "V_Notify");
+        vemit!(SCHED, "V_Notify", "tx" => txid, "fin" => self.scheduler_ctx.finality_idx());
         if txid == self.scheduler_ctx.finality_idx() {
             self.finality_wait.notify();
         }
@@ -804,6 +970,8 @@ where
 
     fn mark_mv_estimate(&self, txid: TxId, write_set: &HashSet<LocationAndType>) {
         for location in write_set {
+            vpoint!(SCHED, "P_Est");
+            vemit!(SCHED, "P_Est", "tx" => txid, "loc" => crate::verif::fmt::loc(location));
             if let Some(mut written_transactions) = self.mv_memory.get_mut(location) &&
                 let Some(entry) = written_transactions.get_mut(&txid)
             {
@@ -814,6 +982,8 @@ where
 
     fn execution_task(&self, execute_id: TxId) -> Option<Task> {
         let mut tx = self.tx_states[execute_id].lock();
+        vemit!(SCHED, "W_ExecTask", "tx" => execute_id, "status" => format!("{:?}", tx.status),
+            "inc" => tx.incarnation);
         match tx.status {
             TransactionStatus::Initial | TransactionStatus::Conflict => {
                 tx.status = TransactionStatus::Executing;
@@ -825,6 +995,9 @@ where
             TransactionStatus::Executing => None,
             _ => {
                 drop(tx);
+                vpoint!(SCHED, "D_Remove");
+                vemit!(SCHED, "D_Remove", "tx" => execute_id, "pop" => false,
+                    "next" => Option::<usize>::None);
                 self.tx_dependency.remove(execute_id, false);
                 self.metrics.record_useless_dependency_update();
                 None
@@ -833,15 +1006,26 @@ where
     }
 
     fn next(&self) -> Option<Task> {
-        while !self.scheduler_ctx.finished() && !self.is_aborted() {
+        while {
+            #[cfg(grevm_verif)]
+            crate::verif::spin_begin();
+            vpoint!(SCHED, "W_Loop");
+            vemit!(SCHED, "W_Loop", "fin" => self.scheduler_ctx.finality_idx(),
+                "abort" => self.abort.load(std::sync::atomic::Ordering::Acquire));
+            !self.scheduler_ctx.finished() && !self.is_aborted()
+        } {
             if !self.scheduler_ctx.should_schedule(self.tx_dependency.index()) {
                 thread::yield_now();
             }
 
-            if let Some(validation_idx) =
-                self.scheduler_ctx.next_validation_idx(self.tx_dependency.index())
-            {
+            vpoint!(SCHED, "W_ValClaim");
+            let claimed = self.scheduler_ctx.next_validation_idx(self.tx_dependency.index());
+            vemit!(SCHED, "W_ValClaim", "idx" => claimed,
+                "val" => self.scheduler_ctx.verif_validation_idx());
+            if let Some(validation_idx) = claimed {
                 let mut tx = self.tx_states[validation_idx].lock();
+                vemit!(SCHED, "W_ValLock", "tx" => validation_idx,
+                    "status" => format!("{:?}", tx.status), "inc" => tx.incarnation);
                 // Rewinds can make cursor claims duplicate or stale; state under this lock decides
                 // whether a validation task still exists.
                 match tx.status {
@@ -856,11 +1040,16 @@ where
                 }
             }
 
-            if let Some(execute_id) = self.tx_dependency.next() &&
+            vpoint!(SCHED, "D_Next");
+            let offered = self.tx_dependency.next();
+            vemit!(SCHED, "D_Next", "tx" => offered, "index" => self.tx_dependency.index());
+            if let Some(execute_id) = offered &&
                 let Some(task) = self.execution_task(execute_id)
             {
                 return Some(task);
             }
+            #[cfg(grevm_verif)]
+            crate::verif::spin_end();
         }
         None
     }
